@@ -66,6 +66,37 @@ fn render_sels(sels: &[ASel], indent: usize, out: &mut String) {
 }
 
 impl ADoc {
+    /// is some fragment reachable from itself through spreads?
+    pub fn has_recursive_fragment(&self) -> bool {
+        fn spreads(sels: &[ASel], out: &mut Vec<String>) {
+            for s in sels {
+                match s {
+                    ASel::Field { sub, .. } | ASel::Inline { sub, .. } => spreads(sub, out),
+                    ASel::Spread { name } => out.push(name.clone()),
+                    ASel::Typename => {}
+                }
+            }
+        }
+        for f in &self.frags {
+            let mut seen: Vec<String> = vec![];
+            let mut todo = vec![];
+            spreads(&f.sels, &mut todo);
+            while let Some(n) = todo.pop() {
+                if n == f.name {
+                    return true;
+                }
+                if seen.contains(&n) {
+                    continue;
+                }
+                seen.push(n.clone());
+                if let Some(g) = self.frag(&n) {
+                    spreads(&g.sels, &mut todo);
+                }
+            }
+        }
+        false
+    }
+
     pub fn render(&self) -> String {
         let mut out = String::new();
         for op in &self.ops {
@@ -131,6 +162,9 @@ pub struct OpGen<'a> {
     pub frags: Vec<AFrag>,
     frag_counter: usize,
     alias_counter: usize,
+    /// fragments whose selection is still being generated (must not be spread: that would be a
+    /// same-level spread cycle, which is not a valid document)
+    building: Vec<String>,
 }
 
 /// response keys a selection set claims on an object of runtime type `rt` (flattening fragments)
@@ -160,7 +194,7 @@ pub fn keys_of(s: &ASchema, frags: &[AFrag], sels: &[ASel], rt: Option<&str>, ou
 
 impl<'a> OpGen<'a> {
     pub fn new(s: &'a ASchema, k: OpKnobs) -> OpGen<'a> {
-        OpGen { s, k, frags: vec![], frag_counter: 0, alias_counter: 0 }
+        OpGen { s, k, frags: vec![], frag_counter: 0, alias_counter: 0, building: vec![] }
     }
 
     fn fresh_alias(&mut self) -> String {
@@ -274,7 +308,8 @@ impl<'a> OpGen<'a> {
 
     /// reuse or create a fragment on `ty` whose keys do not clash with `used`
     fn fragment_for(&mut self, rng: &mut Rng, ty: &str, depth: usize, used: &mut Vec<String>) -> Option<String> {
-        let candidates: Vec<usize> = self.frags.iter().enumerate().filter(|(_, f)| f.on == ty).map(|(i, _)| i).collect();
+        let candidates: Vec<usize> =
+            self.frags.iter().enumerate().filter(|(_, f)| f.on == ty && !self.building.contains(&f.name)).map(|(i, _)| i).collect();
         if !candidates.is_empty() && rng.chance(50) {
             let f = self.frags[*rng.pick(&candidates)].clone();
             let mut keys = Vec::new();
@@ -294,7 +329,9 @@ impl<'a> OpGen<'a> {
         // reserve the slot so that recursive spreads can refer to it
         let idx = self.frags.len();
         self.frags.push(AFrag { name: name.clone(), on: ty.to_string(), sels: vec![] });
+        self.building.push(name.clone());
         let mut sels = self.selection(rng, ty, depth - 1, used);
+        self.building.retain(|n| n != &name);
         // recursive fragment: spread itself below a self-typed (nullable or list) link
         if self.k.recursive_fragments && rng.chance(30) {
             let fields = self.s.fields_of(ty);
@@ -382,7 +419,7 @@ impl<'a> OpGen<'a> {
 pub fn random_doc(rng: &mut Rng, s: &ASchema, k: &OpKnobs) -> ADoc {
     let mut g = OpGen::new(s, k.clone());
     let mut ops = Vec::new();
-    let names = ["MyQuery", "second_op", "Third", "getStuff"];
+    let names = ["MyQuery", "SecondOp", "Third", "getStuff"];
     let n = if rng.chance(70) { 1 } else { rng.range(2, 3) };
     for i in 0..n {
         let kind = match rng.below(5) {
@@ -430,6 +467,8 @@ pub fn random_doc(rng: &mut Rng, s: &ASchema, k: &OpKnobs) -> ADoc {
 pub struct PayloadGen<'a> {
     pub s: &'a ASchema,
     pub doc: &'a ADoc,
+    /// deprecation strategy `deny`: deprecated fields are not part of the generated types
+    pub deny_deprecated: bool,
     pub max_list: usize,
     /// budget that stops recursive fragments: below it nullable positions are null, lists empty
     pub depth_budget: usize,
@@ -628,4 +667,295 @@ impl<'a> PayloadGen<'a> {
             },
         }
     }
+}
+
+// ------------------------------------------------------------------------------------------------
+// typed walks over a conforming payload: the expected re-serialisation and single-point corruptions
+
+/// numbers: an integral float and the integer are the same JSON number
+pub fn canon_numbers(v: &Value) -> Value {
+    match v {
+        Value::Number(n) => {
+            if n.is_f64() {
+                let f = n.as_f64().unwrap_or(0.0);
+                if f.fract() == 0.0 && f.abs() < 9.0e15 {
+                    return json!(f as i64);
+                }
+            }
+            v.clone()
+        }
+        Value::Array(xs) => Value::Array(xs.iter().map(canon_numbers).collect()),
+        Value::Object(m) => Value::Object(m.iter().map(|(k, v)| (k.clone(), canon_numbers(v))).collect()),
+        _ => v.clone(),
+    }
+}
+
+/// drop members whose value is null (null and absent are the same at nullable positions)
+pub fn drop_nulls(v: &Value) -> Value {
+    match v {
+        Value::Array(xs) => Value::Array(xs.iter().map(drop_nulls).collect()),
+        Value::Object(m) => Value::Object(m.iter().filter(|(_, v)| !v.is_null()).map(|(k, v)| (k.clone(), drop_nulls(v))).collect()),
+        _ => v.clone(),
+    }
+}
+
+#[derive(Clone, Debug)]
+pub struct Corruption {
+    pub kind: &'static str,
+    pub path: String,
+    pub payload: Value,
+    /// what the property demands: `Some(false)` must be rejected, `Some(true)` must be accepted,
+    /// `None` either (but if accepted, `expect_typename` must hold)
+    pub must_accept: Option<bool>,
+    /// for tag swaps: (JSON pointer of the object, the tag it must carry after a successful round trip)
+    pub expect_typename: Option<(String, String)>,
+}
+
+impl<'a> PayloadGen<'a> {
+    /// what `to_value(from_value(payload))` must give, up to the differences the property allows:
+    /// integer IDs as decimal strings, `__typename` dropped where the static type is an object type,
+    /// null members dropped.
+    pub fn expected(&self, op: &AOp, payload: &Value) -> Value {
+        let root = match op.kind {
+            "query" => self.s.query.clone(),
+            "mutation" => self.s.mutation.clone(),
+            _ => self.s.subscription.clone(),
+        }
+        .unwrap_or_default();
+        drop_nulls(&canon_numbers(&self.expected_object(&root, &root, &op.sels, payload)))
+    }
+
+    fn expected_object(&self, static_ty: &str, rt: &str, sels: &[ASel], v: &Value) -> Value {
+        let m = match v.as_object() {
+            Some(m) => m,
+            None => return v.clone(),
+        };
+        let mut fields = Vec::new();
+        self.collect(rt, sels, &mut fields, 0);
+        let defs = self.s.fields_of(rt);
+        let mut out = Map::new();
+        for (key, fname, sub) in fields {
+            let val = match m.get(&key) {
+                Some(x) => x,
+                None => continue,
+            };
+            if fname == "__typename" {
+                if self.s.is_abstract(static_ty) {
+                    out.insert(key, val.clone());
+                }
+                continue;
+            }
+            if let Some(def) = defs.iter().find(|f| f.name == fname) {
+                if self.deny_deprecated && def.dep.is_some() {
+                    continue;
+                }
+                out.insert(key, self.expected_value(&def.ty, &sub, val));
+            }
+        }
+        Value::Object(out)
+    }
+
+    fn expected_value(&self, ty: &ATy, sub: &[ASel], v: &Value) -> Value {
+        if v.is_null() {
+            return Value::Null;
+        }
+        match ty {
+            ATy::NonNull(inner) => self.expected_value(inner, sub, v),
+            ATy::List(inner) => match v.as_array() {
+                Some(xs) => Value::Array(xs.iter().map(|x| self.expected_value(inner, sub, x)).collect()),
+                None => v.clone(),
+            },
+            ATy::Named(n) => {
+                if n == "ID" {
+                    return match v {
+                        Value::Number(num) => json!(num.to_string()),
+                        other => other.clone(),
+                    };
+                }
+                if self.s.is_composite(n) {
+                    let rt = v.get("__typename").and_then(|t| t.as_str()).map(|s| s.to_string()).unwrap_or_else(|| n.clone());
+                    let rt = if self.s.is_abstract(n) { rt } else { n.clone() };
+                    return self.expected_object(n, &rt, sub, v);
+                }
+                v.clone()
+            }
+        }
+    }
+
+    /// every single-point corruption of a conforming payload the property speaks about
+    pub fn corruptions(&self, op: &AOp, payload: &Value, other_variant: bool) -> Vec<Corruption> {
+        let root = match op.kind {
+            "query" => self.s.query.clone(),
+            "mutation" => self.s.mutation.clone(),
+            _ => self.s.subscription.clone(),
+        }
+        .unwrap_or_default();
+        let mut out = Vec::new();
+        self.corrupt_object(payload, &root, &root, &op.sels, payload, "", other_variant, &mut out);
+        out
+    }
+
+    #[allow(clippy::too_many_arguments)]
+    fn corrupt_object(&self, whole: &Value, static_ty: &str, rt: &str, sels: &[ASel], v: &Value, ptr: &str, other: bool, out: &mut Vec<Corruption>) {
+        let m = match v.as_object() {
+            Some(m) => m,
+            None => return,
+        };
+        let mut fields = Vec::new();
+        self.collect(rt, sels, &mut fields, 0);
+        let defs = self.s.fields_of(rt);
+        // the tag of an abstract position
+        if self.s.is_abstract(static_ty) && m.contains_key("__typename") {
+            let p = format!("{}/__typename", ptr);
+            out.push(Corruption {
+                kind: "unknown-typename",
+                path: p.clone(),
+                payload: replace_at(whole, &p, Some(json!("NoSuchRuntimeType"))),
+                must_accept: Some(other),
+                expect_typename: None,
+            });
+            // a `__typename` of the wrong scalar kind; with the other-variant option serde maps any
+            // unrecognised identifier (also a numeric one) to `Unknown`, which the property allows
+            out.push(Corruption { kind: "typename-not-a-string", path: p.clone(), payload: replace_at(whole, &p, Some(json!(17))), must_accept: if other { None } else { Some(false) }, expect_typename: None });
+            out.push(Corruption { kind: "typename-bool", path: p.clone(), payload: replace_at(whole, &p, Some(json!(true))), must_accept: Some(false), expect_typename: None });
+            out.push(Corruption { kind: "typename-integer-index", path: p.clone(), payload: replace_at(whole, &p, Some(json!(0))), must_accept: Some(false), expect_typename: None });
+            out.push(Corruption { kind: "typename-deleted", path: p.clone(), payload: replace_at(whole, &p, None), must_accept: Some(false), expect_typename: None });
+            for pt in self.s.possible_types(static_ty) {
+                if pt != rt {
+                    out.push(Corruption {
+                        kind: "swapped-typename",
+                        path: p.clone(),
+                        payload: replace_at(whole, &p, Some(json!(pt))),
+                        must_accept: None,
+                        expect_typename: Some((ptr.to_string(), pt.clone())),
+                    });
+                }
+            }
+        }
+        for (key, fname, sub) in fields {
+            if fname == "__typename" {
+                continue;
+            }
+            let def = match defs.iter().find(|f| f.name == fname) {
+                Some(d) => d,
+                None => continue,
+            };
+            let val = match m.get(&key) {
+                Some(x) => x,
+                None => continue,
+            };
+            if self.deny_deprecated && def.dep.is_some() {
+                continue;
+            }
+            let p = format!("{}/{}", ptr, key.replace('~', "~0").replace('/', "~1"));
+            self.corrupt_value(whole, &def.ty, &sub, val, &p, other, out);
+        }
+    }
+
+    #[allow(clippy::too_many_arguments)]
+    fn corrupt_value(&self, whole: &Value, ty: &ATy, sub: &[ASel], v: &Value, ptr: &str, other: bool, out: &mut Vec<Corruption>) {
+        let non_null = ty.is_non_null();
+        let in_list = ptr.rsplit('/').next().map(|s| s.chars().all(|c| c.is_ascii_digit()) && !s.is_empty()).unwrap_or(false);
+        if non_null {
+            out.push(Corruption { kind: "null-at-non-null", path: ptr.into(), payload: replace_at(whole, ptr, Some(Value::Null)), must_accept: Some(false), expect_typename: None });
+            if !in_list {
+                out.push(Corruption { kind: "missing-at-non-null", path: ptr.into(), payload: replace_at(whole, ptr, None), must_accept: Some(false), expect_typename: None });
+            }
+        }
+        if v.is_null() {
+            return;
+        }
+        let inner = match ty {
+            ATy::NonNull(i) => &**i,
+            t => t,
+        };
+        match inner {
+            ATy::List(elem) => {
+                for (kind, repl) in [("non-list-for-list/string", json!("not a list")), ("non-list-for-list/object", json!({})), ("non-list-for-list/number", json!(3))] {
+                    out.push(Corruption { kind, path: ptr.into(), payload: replace_at(whole, ptr, Some(repl)), must_accept: Some(false), expect_typename: None });
+                }
+                if let Some(xs) = v.as_array() {
+                    for (i, x) in xs.iter().enumerate().take(2) {
+                        self.corrupt_value(whole, elem, sub, x, &format!("{}/{}", ptr, i), other, out);
+                    }
+                }
+            }
+            ATy::Named(n) => {
+                let swaps: Vec<(&'static str, Value)> = match n.as_str() {
+                    "Int" => vec![("wrong-kind/int<-string", json!("12")), ("wrong-kind/int<-float", json!(1.5)), ("wrong-kind/int<-bool", json!(true)), ("wrong-kind/int<-list", json!([1]))],
+                    "Float" => vec![("wrong-kind/float<-string", json!("1.5")), ("wrong-kind/float<-bool", json!(false)), ("wrong-kind/float<-object", json!({}))],
+                    "String" => vec![("wrong-kind/string<-int", json!(7)), ("wrong-kind/string<-bool", json!(true)), ("wrong-kind/string<-list", json!(["a"]))],
+                    "Boolean" => vec![("wrong-kind/bool<-string", json!("true")), ("wrong-kind/bool<-int", json!(1))],
+                    "ID" => vec![("wrong-kind/id<-float", json!(1.5)), ("wrong-kind/id<-bool", json!(true)), ("wrong-kind/id<-list", json!(["a"])), ("wrong-kind/id<-object", json!({}))],
+                    _ => match self.s.get(n) {
+                        Some(AType::Enum { .. }) => vec![("wrong-kind/enum<-int", json!(3)), ("wrong-kind/enum<-bool", json!(true)), ("wrong-kind/enum<-object", json!({}))],
+                        Some(AType::Object { .. }) | Some(AType::Interface { .. }) | Some(AType::Union { .. }) => {
+                            vec![("wrong-kind/object<-string", json!("x")), ("wrong-kind/object<-number", json!(1)), ("wrong-kind/object<-bool", json!(true))]
+                        }
+                        _ => vec![],
+                    },
+                };
+                for (kind, repl) in swaps {
+                    out.push(Corruption { kind, path: ptr.into(), payload: replace_at(whole, ptr, Some(repl)), must_accept: Some(false), expect_typename: None });
+                }
+                if self.s.is_composite(n) {
+                    let rt = v.get("__typename").and_then(|t| t.as_str()).map(|s| s.to_string()).unwrap_or_else(|| n.clone());
+                    let rt = if self.s.is_abstract(n) { rt } else { n.clone() };
+                    self.corrupt_object(whole, n, &rt, sub, v, ptr, other, out);
+                }
+            }
+            ATy::NonNull(_) => {}
+        }
+    }
+}
+
+/// replace (Some) or delete (None) the value at a JSON pointer
+pub fn replace_at(whole: &Value, ptr: &str, with: Option<Value>) -> Value {
+    let mut v = whole.clone();
+    let parts: Vec<String> = ptr.split('/').skip(1).map(|s| s.replace("~1", "/").replace("~0", "~")).collect();
+    if parts.is_empty() {
+        return with.unwrap_or(Value::Null);
+    }
+    let mut cur = &mut v;
+    for (i, p) in parts.iter().enumerate() {
+        let last = i + 1 == parts.len();
+        if last {
+            match cur {
+                Value::Object(m) => match &with {
+                    Some(w) => {
+                        m.insert(p.clone(), w.clone());
+                    }
+                    None => {
+                        m.remove(p);
+                    }
+                },
+                Value::Array(xs) => {
+                    if let Ok(idx) = p.parse::<usize>() {
+                        if idx < xs.len() {
+                            match &with {
+                                Some(w) => xs[idx] = w.clone(),
+                                None => {
+                                    xs.remove(idx);
+                                }
+                            }
+                        }
+                    }
+                }
+                _ => {}
+            }
+            break;
+        }
+        cur = match cur {
+            Value::Object(m) => match m.get_mut(p) {
+                Some(x) => x,
+                None => return v,
+            },
+            Value::Array(xs) => match p.parse::<usize>().ok().and_then(|i| xs.get_mut(i)) {
+                Some(x) => x,
+                None => return v,
+            },
+            _ => return v,
+        };
+    }
+    v
 }
